@@ -175,6 +175,15 @@ fn run_generic(tier: &str, which: &'static str, rec: &Recorder) -> RunOutput {
         let m = modes(&f);
         for_each_graph(&f, seed, deadline, &stats, |b, c| if which == "C05" { check_betweenness(b, rec, c, &m) } else { check_closeness(b, rec, c, &m) });
     }
+    {
+        let mut c = Counters::default();
+        if which == "C05" {
+            crate::large::c05_large(tier, rec, &mut c);
+        } else {
+            crate::large::c06_large(tier, rec, &mut c);
+        }
+        stats.counters.lock().unwrap().merge(&c);
+    }
     fill_e2_coverage(&mut out, &stats);
     out.set("traces_validated_against_impl", out.get("transitions"));
     out
